@@ -19,7 +19,7 @@ def check(tier):
     rep = Reporter(PID, tier)
     pvh = build_harness()
     quick = tier == "quick"
-    rendercommon.render_replay(rep, pvh, "MC_RenderC19", ["MC_RenderC19_pos2.cfg" if quick else "MC_RenderC19_pos3.cfg", "MC_RenderC19_arrparam.cfg", "MC_RenderC19_neg.cfg", "MC_RenderC19_rec.cfg"])
+    rendercommon.render_replay(rep, pvh, "MC_RenderC19", ["MC_RenderC19_pos2.cfg" if quick else "MC_RenderC19_pos3.cfg", "MC_RenderC19_arrparam.cfg", "MC_RenderC19_neg.cfg", "MC_RenderC19_rec.cfg", "MC_RenderC19_nestparam.cfg"])
     for fam in (["sym1", "sym2tag"] if quick else ["sym1", "sym2tag", "sym2"]):
         extra, nf = registry_cfg(pvh, fam, "MC_RenderC19_%s.cfg" % fam)
         rep.extra["registered_filters"] = nf
